@@ -165,6 +165,10 @@ Qed.
 Theorem model_passes_oracle190_cf r : verdict190 (8 :: r) (run190 (8 :: r)) = true.
 Proof. exact (model_passes_oracle60_set_cf r). Qed.
 
+(* suite 190 kind 12 is suite 60 kind 6: the Observe and Content-Format getters over any raw state *)
+Theorem model_passes_oracle190_getters r : verdict190 (12 :: r) (run190 (12 :: r)) = true.
+Proof. exact (model_passes_oracle60_getters r). Qed.
+
 Theorem model_passes_oracle190_set_flag r : verdict190 (6 :: r) (run190 (6 :: r)) = true.
 Proof.
   unfold verdict190. destruct (in_domain190 (6 :: r)) eqn:ED; [|reflexivity]. cbn [in_domain190 spec190 run190] in *.
